@@ -132,6 +132,7 @@ class Interp:
         if intrinsics:
             self.intrinsics.update(intrinsics)
         self.max_depth = max_depth
+        self.faithful_registry = False  # True: a class's own __setattr__ is interpreted and no registry shortcut is taken (C12.R9 checks the summaries)
         self.shapes = {}  # symbol name -> tuple of extents (ints or Syms) for folding x.size(k)
         self.reset([])
 
@@ -334,7 +335,31 @@ class Interp:
                 return c
             return o
         if name in ("copy.deepcopy",):
-            return args[0]
+            memo = {}
+
+            def dc(v):
+                if isinstance(v, Obj):
+                    if id(v) in memo:
+                        return memo[id(v)]
+                    c = Obj(v.cls, v.name + "#copy", {}, set(getattr(v, "tags", ()) or ()))
+                    memo[id(v)] = c
+                    for k_, x in v.attrs.items():
+                        c.attrs[k_] = dc(x)
+                    return c
+                if isinstance(v, Sym) and (("callable" in v.tags) or ("tensor" in v.tags) or ("module" in v.tags) or ("buffer" in v.tags)):
+                    # a module / tensor held by the object: the copy owns separate parameters and storage
+                    return Sym(v.name + "#copy", tuple(v.tags) + ("deepcopy",))
+                if isinstance(v, list):
+                    return [dc(x) for x in v]
+                if isinstance(v, tuple) and not hasattr(v, "_fields"):
+                    return tuple(dc(x) for x in v)
+                if isinstance(v, dict):
+                    return {k_: dc(x) for k_, x in v.items()}
+                return v
+            out_ = dc(args[0])
+            if out_ is not args[0]:
+                self.ev("deepcopy", src=args[0], dst=out_, node=node)
+            return out_
         if name == "inspect.signature":
             f = args[0]
             fi = f.fi if isinstance(f, (BoundMethod, Closure)) else f if isinstance(f, FuncInfo) else None
@@ -358,12 +383,13 @@ class Interp:
             if opname in ("as_tensor", "tensor") and args and "dtype" not in kwargs and isinstance(args[0], float) and not _f32_exact(args[0]):
                 # a Python float constant that float32 cannot represent, packed into a default-dtype tensor (math.pi, 0.1, ...)
                 self.ev("lossy_scalar", value=repr(args[0]), how=f"torch.{opname}(<python float constant>) without dtype", node=node)
-            if opname in ("as_tensor",) and args and isinstance(args[0], Term) and not kwargs:
+            if opname in ("as_tensor",) and args and isinstance(args[0], Term) and "dtype" not in kwargs:
                 if isinstance(args[0], Sym) and "float" in args[0].tags:
                     # a Python float turned into a 0-dim tensor of the DEFAULT dtype: same value for the algebra, but the value is rounded to
                     # float32 before it meets float64 data - kept visible for the precision rule (C07.R7)
                     self.ev("lossy_scalar", value=args[0], how="torch.as_tensor(<python float>) without dtype", node=node)
-                return args[0]
+                if not kwargs:
+                    return args[0]
             if opname == "Size":
                 return tuple(args[0])
             if opname == "broadcast_tensors":
@@ -661,6 +687,11 @@ class Interp:
         hook = self.prog.lookup_method(o.cls, "__setattr__")
         if hook is not None and hook.qualname in self.intrinsics:
             self.intrinsics[hook.qualname](self, o, [attr, v], {})
+        elif hook is not None and self.faithful_registry:
+            # the class's own __setattr__ decides what is stored (object.__setattr__ is reached through super())
+            self.ev("call", callee=hook.qualname, recv=o, args=[attr, v], kwargs={}, node=node)
+            self.call_function(hook, [attr, v], {}, self_obj=o)
+            return
         o.attrs[attr] = v
         self.ev("obj_setattr", obj=o, attr=attr, value=v, node=node)
 
@@ -799,9 +830,15 @@ class Interp:
     def eval_BoolOp(self, e, env):
         is_and = isinstance(e.op, ast.And)
         sym = []
-        for x in e.values:
+        for k_, x in enumerate(e.values):
             v = self.eval(x, env)
             if isinstance(v, Term):
+                if not sym and k_ + 1 < len(e.values) and isinstance(v, Sym) and ("float" in v.tags or "int" in v.tags or "optional" in v.tags):
+                    # value selection (`x or default`, `x and f(x)`): the truthiness of a number / optional value picks the operand
+                    t_ = self.truth(v if "optional" not in v.tags else Op("not", (Op("is_none", (v,)),)), e, env)
+                    if t_ != is_and:
+                        return v
+                    continue
                 sym.append(v)
                 continue
             if is_and and not v:
@@ -932,6 +969,8 @@ class Interp:
         if isinstance(o, SuperRef):
             fi = self.prog.lookup_method(o.obj.cls if isinstance(o.obj, Obj) else o.obj.qualname, attr, after=o.after_cls)
             if fi is None:
+                if attr == "__setattr__" and isinstance(o.obj, Obj):
+                    return ("object_setattr_method", o.obj, attr)
                 return ExtRef("super." + attr)
             return BoundMethod(o.obj, fi)
         if isinstance(o, dict):
@@ -957,7 +996,7 @@ class Interp:
             return {k[6:]: v for k, v in o.attrs.items() if k.startswith("__buf_")}
         if attr in o.attrs:
             return o.attrs[attr]
-        if attr == "underlier" and o.cls in self.prog.classes and any(
+        if attr == "underlier" and not self.faithful_registry and o.cls in self.prog.classes and any(
                 c in ("pfhedge.instruments.derivative.base.BaseDerivative", "pfhedge.instruments.derivative.base.OptionMixin")
                 for c in self.prog.mro(o.cls)):
             return i_ul(self, o, [0], {})
@@ -977,6 +1016,11 @@ class Interp:
             ci, val = self.prog.lookup_class_attr(o.cls, attr)
             if val is not None:
                 return self.eval(val, {"__module__": ci.module, "__parent__": None, "__cls__": ci.qualname})
+            if self.faithful_registry:
+                ga = self.prog.lookup_method(o.cls, "__getattr__")
+                if ga is not None and ga.qualname not in self.intrinsics:
+                    self.ev("call", callee=ga.qualname, recv=o, args=[attr], kwargs={}, node=node, prop=True)
+                    return self.call_function(ga, [attr], {}, self_obj=o)
             ci, ann = self.prog.lookup_annotation(o.cls, attr)
             if ann is not None:
                 return self.materialize(o, attr, ann, ci.module)
@@ -1160,6 +1204,12 @@ class Interp:
         if name == "zip":
             if all(isinstance(x, (list, tuple)) for x in a):
                 return list(zip(*a))
+            conc = [len(x) for x in a if isinstance(x, (list, tuple))]
+            if conc and all(isinstance(x, (list, tuple, Term)) for x in a):
+                # a symbolic sequence zipped with concrete ones: as many elements as the shortest concrete operand
+                n_ = min(conc)
+                cols = [list(x)[:n_] if isinstance(x, (list, tuple)) else [Op("getitem", (x, k_)) for k_ in range(n_)] for x in a]
+                return list(zip(*cols))
             raise Unsupported("zip symbolic")
         if name in ("any", "all"):
             v = a[0]
@@ -1172,6 +1222,17 @@ class Interp:
             return self.isinstance_(a[0], a[1])
         if name == "issubclass":
             return Op("issubclass", (Sym(repr(a[0])), Sym(repr(a[1]))))
+        if name == "callable":
+            o = a[0]
+            if isinstance(o, (FuncInfo, Closure, BoundMethod, ClassRef, ExtRef)):
+                return True
+            if isinstance(o, Obj):
+                return bool(self.prog.lookup_method(o.cls, "forward") or self.prog.lookup_method(o.cls, "__call__")) if o.cls in self.prog.classes else True
+            if isinstance(o, Sym) and "callable" in o.tags:
+                return True
+            if o is None or isinstance(o, (int, float, str, tuple, list, dict)):
+                return False
+            return Op("callable", (o,))
         if name == "hasattr":
             o, attr = a
             if isinstance(o, Obj):
@@ -1275,6 +1336,10 @@ class Interp:
         kind, recv, attr = f
         if kind == "tensor_method":
             return self.tensor_method(recv, attr, args, kwargs, node)
+        if kind == "object_setattr_method":
+            recv.attrs[args[0]] = args[1]
+            self.ev("obj_setattr", obj=recv, attr=args[0], value=args[1], node=node)
+            return None
         if kind == "dict_method":
             d = recv
             if attr == "keys":
@@ -1378,7 +1443,7 @@ MODULE_METHODS = {"register_buffer", "get_buffer", "register_forward_hook", "tra
                   "named_parameters", "zero_grad", "state_dict", "load_state_dict", "buffers", "named_buffers", "modules",
                   "float", "double", "half", "cpu", "cuda", "apply", "requires_grad_"}
 
-BUILTINS = {"id", "len", "range", "list", "tuple", "map", "zip", "any", "all", "isinstance", "issubclass", "hasattr", "getattr",
+BUILTINS = {"id", "callable", "len", "range", "list", "tuple", "map", "zip", "any", "all", "isinstance", "issubclass", "hasattr", "getattr",
             "setattr", "int", "float", "str", "repr", "abs", "min", "max", "sum", "round", "sorted", "reversed", "print",
             "iter", "dict", "type", "super", "ValueError", "TypeError", "RuntimeError", "KeyError", "AttributeError",
             "DeprecationWarning", "bytes", "bool", "object", "NotImplementedError", "AssertionError"}
